@@ -26,6 +26,8 @@ Should be invoked by #ConverterHandlerTabular() and #ConverterHandlerVisual().
 */
 func converterHandler(w http.ResponseWriter, r *http.Request, templateName string) {
 
+	verifYield(w, "enter")
+
 	//// STEP 1: Read all parameters from returned form
 
 	// Reading form to prepopulate response
